@@ -1,1 +1,2145 @@
-//! C42: not implemented yet.
+//! C42 — The multi-clock estimator keeps unrelated estimates intact.
+//!
+//! Engine E-SEQ (explicit-state breadth-first search over the REAL objects, clones as
+//! successors, de-duplication on exact f64 bit patterns + structure).
+//!
+//! (a) `EstimatorState<StdKalmanStorage<()>>` driven directly (this is where the index
+//!     bookkeeping and the splice/extend code lives);
+//! (b) the public `KalmanController<StdKalmanStorage<MockClock>, MockClock>` with
+//!     `KalmanLink`s and a mock clock (also used by C43, see `c43.rs`).
+//!
+//! Oracle (from the statement): a structural operation (add/remove clock, external clock,
+//! link) leaves the (value, uncertainty) of every OTHER clock's offset and frequency and of
+//! every OTHER link's delay bit-identical; operations on unknown / duplicate / stale
+//! identifiers fail and (controller) leave the complete state identical; a progression to an
+//! earlier time fails with `NonMonotonicTimeProgression` and changes nothing; estimator time
+//! never decreases (the deliberate shift when a system-clock step is absorbed is excluded).
+extern crate std;
+use std::prelude::v1::*;
+use std::{format, println, vec};
+
+use core::hash::{Hash, Hasher};
+use core::marker::PhantomData;
+use std::collections::{BTreeMap, HashSet};
+use std::sync::{Arc, Mutex, RwLock};
+
+use statime_base::{
+    Clock, ClockError, ClockId, Direction, Duration, LeapStatus, LinkId, TAI, Timestamp,
+};
+
+use super::common::{self, Ctx};
+use crate::estimator::verif_probe::gp as pe;
+use crate::estimator::{EstimatorState, UncertainValue};
+use crate::filter::verif_probe::gp as pf;
+use crate::filter::{LinkFilter, LinkFilterConfig};
+use crate::storage::StateMutex;
+use crate::{
+    AlgoError, ClockInfo as CtlClockInfo, KalmanController, KalmanControllerState, KalmanLink,
+    Measurement, StdKalmanStorage,
+};
+
+// =====================================================================================
+// small utilities
+// =====================================================================================
+
+struct Cap(Vec<u8>);
+impl Hasher for Cap {
+    fn finish(&self) -> u64 {
+        0
+    }
+    fn write(&mut self, b: &[u8]) {
+        self.0.extend_from_slice(b);
+    }
+}
+
+/// Exact raw value (2^-64 s since the epoch) of a timestamp, read through its `Hash` impl
+/// (the inner integer is private to statime-base).
+pub(super) fn ts_raw(t: Timestamp<TAI>) -> u128 {
+    let mut c = Cap(Vec::new());
+    t.hash(&mut c);
+    let mut a = [0u8; 16];
+    a.copy_from_slice(&c.0[..16]);
+    u128::from_ne_bytes(a)
+}
+
+/// Exact raw value (2^-64 s) of a duration.
+pub(super) fn dur_raw(d: Duration) -> i128 {
+    let mut c = Cap(Vec::new());
+    d.hash(&mut c);
+    let mut a = [0u8; 16];
+    a.copy_from_slice(&c.0[..16]);
+    i128::from_ne_bytes(a)
+}
+
+pub(super) fn err_name(e: &AlgoError) -> &'static str {
+    match e {
+        AlgoError::UnknownClock(_) => "UnknownClock",
+        AlgoError::ClockAlreadyExists(_) => "ClockAlreadyExists",
+        AlgoError::UnknownLink(_) => "UnknownLink",
+        AlgoError::LinkAlreadyExists(_) => "LinkAlreadyExists",
+        AlgoError::LinkNotExternal(_) => "LinkNotExternal",
+        AlgoError::BothClocksExternal(_, _) => "BothClocksExternal",
+        AlgoError::ClocksEqual(_) => "ClocksEqual",
+        AlgoError::NonMonotonicTimeProgression { .. } => "NonMonotonicTimeProgression",
+        AlgoError::CannotRemoveSystemClock(_) => "CannotRemoveSystemClock",
+        AlgoError::MatrixError(_) => "MatrixError",
+        AlgoError::ClockError(_) => "ClockError",
+        AlgoError::NotEnoughMeasurements(_) => "NotEnoughMeasurements",
+        AlgoError::ClockInUse(_, _) => "ClockInUse",
+    }
+}
+
+/// Canonical-key builder: a word vector hashed to 128 bits by two unrelated mixers.
+#[derive(Default)]
+pub(super) struct KB {
+    w: Vec<u64>,
+}
+impl KB {
+    pub fn u(&mut self, x: u64) {
+        self.w.push(x);
+    }
+    pub fn f(&mut self, x: f64) {
+        self.w.push(x.to_bits());
+    }
+    pub fn u128(&mut self, x: u128) {
+        self.w.push(x as u64);
+        self.w.push((x >> 64) as u64);
+    }
+    pub fn sep(&mut self) {
+        self.w.push(0xffff_ffff_ffff_fff1);
+    }
+    pub fn s(&mut self, s: &str) {
+        self.w.push(s.len() as u64 ^ 0x5555_0000_0000_0000);
+        for ch in s.as_bytes().chunks(8) {
+            let mut a = [0u8; 8];
+            a[..ch.len()].copy_from_slice(ch);
+            self.w.push(u64::from_le_bytes(a));
+        }
+    }
+    pub fn finish(&self) -> u128 {
+        let mut h1: u64 = 0xcbf29ce484222325;
+        let mut h2: u64 = 0x9e3779b97f4a7c15;
+        for &x in &self.w {
+            for b in x.to_le_bytes() {
+                h1 ^= b as u64;
+                h1 = h1.wrapping_mul(0x100000001b3);
+            }
+            let mut z = h2 ^ x;
+            z = (z ^ (z >> 30)).wrapping_mul(0xbf58476d1ce4e5b9);
+            z = (z ^ (z >> 27)).wrapping_mul(0x94d049bb133111eb);
+            h2 = (z ^ (z >> 31)).wrapping_add(0x9e3779b97f4a7c15);
+        }
+        ((h1 as u128) << 64) | h2 as u128
+    }
+}
+
+/// Per-worker tally merged into the `Ctx` once per expanded state (keeps lock traffic low).
+#[derive(Default)]
+pub(super) struct Tally {
+    c: BTreeMap<String, u64>,
+    d: Vec<u64>,
+}
+impl Tally {
+    pub fn inc(&mut self, k: &str) {
+        self.add(k, 1);
+    }
+    pub fn add(&mut self, k: &str, n: u64) {
+        if let Some(v) = self.c.get_mut(k) {
+            *v += n;
+        } else {
+            self.c.insert(k.to_string(), n);
+        }
+    }
+    pub fn distinct(&mut self, h: u64) {
+        self.d.push(h);
+    }
+    pub fn flush(self, ctx: &Ctx) {
+        for (k, v) in self.c {
+            ctx.add(&k, v);
+        }
+        ctx.distinct_many(self.d);
+    }
+}
+
+/// Worker-local tally that is merged into the `Ctx` when the worker finishes.
+pub(super) struct TallyGuard<'a>(pub Tally, pub &'a Ctx);
+impl Drop for TallyGuard<'_> {
+    fn drop(&mut self) {
+        core::mem::take(&mut self.0).flush(self.1);
+    }
+}
+
+pub(super) struct Explored {
+    pub states: u64,
+    pub depth_done: u64,
+    pub fixpoint: bool,
+    pub per_level: Vec<u64>,
+}
+
+/// Level-synchronous BFS. `succ` returns the successors whose key differs from the parent
+/// (self-loops are evaluated and counted inside `succ`). Workers only partition the
+/// frontier; the merge into `seen` is sequential in parent order, so the search (and the
+/// representative history kept for every state) is deterministic.
+pub(super) fn explore<S: Send + Sync>(
+    ctx: &Ctx,
+    tag: &str,
+    init: Vec<(u128, S)>,
+    succ: &(dyn Fn(&mut Tally, &S) -> Vec<(u128, S)> + Sync),
+    max_depth: u64,
+    deadline_s: f64,
+) -> Explored {
+    let mut seen: HashSet<u128> = HashSet::new();
+    let mut frontier: Vec<S> = Vec::new();
+    for (k, s) in init {
+        if seen.insert(k) {
+            frontier.push(s);
+        }
+    }
+    let mut per_level = vec![frontier.len() as u64];
+    let mut depth = 0u64;
+    let mut last_level_s = 0.0f64;
+    let mut fixpoint = false;
+    while depth < max_depth {
+        if frontier.is_empty() {
+            fixpoint = true;
+            break;
+        }
+        // never start a level that cannot finish inside the budget (estimate: the level
+        // before took `last_level_s` for a frontier `growth` times smaller)
+        let n = per_level.len();
+        let growth = if n >= 2 && per_level[n - 2] > 0 {
+            per_level[n - 1] as f64 / per_level[n - 2] as f64
+        } else {
+            1.0
+        };
+        if ctx.elapsed_s() > deadline_s || ctx.elapsed_s() + last_level_s * growth > deadline_s {
+            ctx.cap_hit(&format!(
+                "{tag}: depth {} not started (budget); depth<={} complete",
+                depth + 1,
+                depth
+            ));
+            break;
+        }
+        let t0 = ctx.elapsed_s();
+        let results: Mutex<Vec<(u64, Vec<(u128, Option<S>)>)>> = Mutex::new(Vec::new());
+        {
+            let seen_ref = &seen;
+            let fr = &frontier;
+            let last = depth + 1 == max_depth;
+            common::par_for_with(fr.len() as u64, 8, || TallyGuard(Tally::default(), ctx), |tg, i| {
+                // states of the last level are never expanded: keep only their keys
+                let out: Vec<(u128, Option<S>)> = succ(&mut tg.0, &fr[i as usize])
+                    .into_iter()
+                    .filter(|(k, _)| !seen_ref.contains(k))
+                    .map(|(k, s)| (k, if last { None } else { Some(s) }))
+                    .collect();
+                if !out.is_empty() {
+                    results.lock().unwrap().push((i, out));
+                }
+            });
+        }
+        let mut r = results.into_inner().unwrap();
+        r.sort_by_key(|x| x.0);
+        let mut next = Vec::new();
+        let mut new_states = 0u64;
+        for (_, out) in r {
+            for (k, s) in out {
+                if seen.insert(k) {
+                    new_states += 1;
+                    if let Some(s) = s {
+                        next.push(s);
+                    }
+                }
+            }
+        }
+        depth += 1;
+        per_level.push(new_states);
+        frontier = next;
+        last_level_s = ctx.elapsed_s() - t0;
+    }
+    if per_level.last() == Some(&0) {
+        fixpoint = true;
+    }
+    Explored {
+        states: seen.len() as u64,
+        depth_done: depth,
+        fixpoint,
+        per_level,
+    }
+}
+
+#[derive(Clone, Copy, Debug, PartialEq, Eq)]
+pub(super) enum Who {
+    P(u8),
+    Unknown,
+    Stale,
+}
+impl Who {
+    fn code(self) -> String {
+        match self {
+            Who::P(p) => format!("{p}"),
+            Who::Unknown => "u".into(),
+            Who::Stale => "s".into(),
+        }
+    }
+    fn parse(s: &str) -> Option<Who> {
+        match s {
+            "u" => Some(Who::Unknown),
+            "s" => Some(Who::Stale),
+            _ => s.parse::<u8>().ok().map(Who::P),
+        }
+    }
+}
+
+pub(super) type Est4 = Result<[u64; 4], String>;
+pub(super) type Est2 = Result<[u64; 2], String>;
+
+fn uv_bits(v: UncertainValue) -> [u64; 2] {
+    [v.value.to_bits(), v.uncertainty.to_bits()]
+}
+
+pub(super) fn fmt4(e: &Est4) -> String {
+    match e {
+        Ok(b) => format!(
+            "off={:e}±{:e} freq={:e}±{:e}",
+            f64::from_bits(b[0]),
+            f64::from_bits(b[1]),
+            f64::from_bits(b[2]),
+            f64::from_bits(b[3])
+        ),
+        Err(s) => format!("<{s}>"),
+    }
+}
+pub(super) fn fmt2(e: &Est2) -> String {
+    match e {
+        Ok(b) => format!("delay={:e}±{:e}", f64::from_bits(b[0]), f64::from_bits(b[1])),
+        Err(s) => format!("<{s}>"),
+    }
+}
+
+// =====================================================================================
+// (a) EstimatorState driven directly
+// =====================================================================================
+
+type Est = EstimatorState<StdKalmanStorage<()>>;
+
+#[derive(Clone)]
+struct AClock {
+    id: ClockId,
+    ext: bool,
+    slot: u8,
+}
+#[derive(Clone)]
+struct ALink {
+    id: LinkId,
+    slot: u8,
+}
+#[derive(Clone)]
+struct AState {
+    est: Est,
+    clocks: Vec<AClock>,
+    links: Vec<ALink>,
+    unknown: ClockId,
+    stale_clock: Option<ClockId>,
+    stale_link: Option<LinkId>,
+    hist: Vec<AOp>,
+}
+
+#[derive(Clone, Copy, Debug, PartialEq, Eq)]
+enum AOp {
+    AddClock,
+    AddExt,
+    AddClockDup(u8),
+    AddExtDup(u8),
+    RemClock(Who),
+    RemExt(Who),
+    AddLink(u8, u8),
+    AddLinkDup(u8),
+    AddLinkUnk(bool),
+    RemLink(Who),
+    Meas(u8, bool),
+    MeasPair(u8, u8),
+    MeasUnkLink,
+    MeasUnkClock,
+    Prog(i8),
+}
+
+impl AOp {
+    fn code(self) -> String {
+        match self {
+            AOp::AddClock => "ac".into(),
+            AOp::AddExt => "ae".into(),
+            AOp::AddClockDup(p) => format!("acd{p}"),
+            AOp::AddExtDup(p) => format!("aed{p}"),
+            AOp::RemClock(w) => format!("rc{}", w.code()),
+            AOp::RemExt(w) => format!("re{}", w.code()),
+            AOp::AddLink(i, j) => format!("al{i}{j}"),
+            AOp::AddLinkDup(k) => format!("ald{k}"),
+            AOp::AddLinkUnk(first) => format!("alu{}", if first { 0 } else { 1 }),
+            AOp::RemLink(w) => format!("rl{}", w.code()),
+            AOp::Meas(k, f) => format!("m{k}{}", if f { "f" } else { "r" }),
+            AOp::MeasPair(i, j) => format!("mp{i}{j}"),
+            AOp::MeasUnkLink => "mul".into(),
+            AOp::MeasUnkClock => "muc".into(),
+            AOp::Prog(d) => format!("p{}", if d > 0 { "+" } else if d < 0 { "-" } else { "0" }),
+        }
+    }
+    fn parse(s: &str) -> Option<AOp> {
+        let d = |c: &str| c.parse::<u8>().ok();
+        Some(match s {
+            "ac" => AOp::AddClock,
+            "ae" => AOp::AddExt,
+            "mul" => AOp::MeasUnkLink,
+            "muc" => AOp::MeasUnkClock,
+            "p+" => AOp::Prog(1),
+            "p0" => AOp::Prog(0),
+            "p-" => AOp::Prog(-1),
+            _ if s.starts_with("acd") => AOp::AddClockDup(d(&s[3..])?),
+            _ if s.starts_with("aed") => AOp::AddExtDup(d(&s[3..])?),
+            _ if s.starts_with("ald") => AOp::AddLinkDup(d(&s[3..])?),
+            _ if s.starts_with("alu") => AOp::AddLinkUnk(&s[3..] == "0"),
+            _ if s.starts_with("al") && s.len() == 4 => AOp::AddLink(d(&s[2..3])?, d(&s[3..4])?),
+            _ if s.starts_with("rc") => AOp::RemClock(Who::parse(&s[2..])?),
+            _ if s.starts_with("re") => AOp::RemExt(Who::parse(&s[2..])?),
+            _ if s.starts_with("rl") => AOp::RemLink(Who::parse(&s[2..])?),
+            _ if s.starts_with("mp") && s.len() == 4 => AOp::MeasPair(d(&s[2..3])?, d(&s[3..4])?),
+            _ if s.starts_with('m') && s.len() == 3 => AOp::Meas(d(&s[1..2])?, &s[2..] == "f"),
+            _ => return None,
+        })
+    }
+}
+
+const A_MAX_CLOCKS: usize = 3;
+const A_MAX_LINKS: usize = 2;
+
+// pairwise distinct initial values per value slot
+fn a_clock_init(slot: u8) -> (UncertainValue, UncertainValue, f64) {
+    let k = slot as f64 + 1.0;
+    (
+        UncertainValue { value: 0.125 * k, uncertainty: 0.01 * k },
+        UncertainValue { value: 1.5e-6 * k, uncertainty: 1e-7 * k },
+        1e-8 * k,
+    )
+}
+fn a_link_init(slot: u8) -> (UncertainValue, f64) {
+    let k = slot as f64;
+    (
+        UncertainValue { value: 0.5 + 0.25 * k, uncertainty: 0.2 + 0.1 * k },
+        0.05 * k, // slot 0: no decay, slot 1: decaying
+    )
+}
+fn a_meas_value(sel: u8, fwd: bool) -> UncertainValue {
+    let k = sel as f64 + 1.0;
+    UncertainValue {
+        value: if fwd { 0.3 * k } else { -0.2 * k + 0.05 },
+        uncertainty: 0.02 * k,
+    }
+}
+
+fn a_t0() -> Timestamp<TAI> {
+    Timestamp::UNIX_EPOCH + Duration::from_seconds_nanos(1000, 0)
+}
+
+fn a_new() -> AState {
+    AState {
+        est: Est::empty(a_t0()),
+        clocks: Vec::new(),
+        links: Vec::new(),
+        unknown: ClockId::new(),
+        stale_clock: None,
+        stale_link: None,
+        hist: Vec::new(),
+    }
+}
+
+fn free_slot(used: impl Iterator<Item = u8>) -> u8 {
+    let u: Vec<u8> = used.collect();
+    (0u8..).find(|s| !u.contains(s)).unwrap()
+}
+
+fn a_ops(s: &AState) -> Vec<AOp> {
+    let n = s.clocks.len() as u8;
+    let l = s.links.len() as u8;
+    let mut v = Vec::new();
+    if (n as usize) < A_MAX_CLOCKS {
+        v.push(AOp::AddClock);
+        v.push(AOp::AddExt);
+    }
+    for p in 0..n {
+        v.push(AOp::AddClockDup(p));
+        v.push(AOp::AddExtDup(p));
+        v.push(AOp::RemClock(Who::P(p)));
+        v.push(AOp::RemExt(Who::P(p)));
+    }
+    v.push(AOp::RemClock(Who::Unknown));
+    v.push(AOp::RemExt(Who::Unknown));
+    if s.stale_clock.is_some() {
+        v.push(AOp::RemClock(Who::Stale));
+        v.push(AOp::RemExt(Who::Stale));
+    }
+    if (l as usize) < A_MAX_LINKS {
+        for i in 0..n {
+            for j in 0..n {
+                if i != j {
+                    v.push(AOp::AddLink(i, j));
+                }
+            }
+        }
+    }
+    if n >= 1 {
+        v.push(AOp::AddLinkUnk(true));
+        v.push(AOp::AddLinkUnk(false));
+        v.push(AOp::MeasUnkClock);
+    }
+    for k in 0..l {
+        v.push(AOp::AddLinkDup(k));
+        v.push(AOp::RemLink(Who::P(k)));
+        v.push(AOp::Meas(k, true));
+        v.push(AOp::Meas(k, false));
+    }
+    if n >= 2 {
+        v.push(AOp::RemLink(Who::Unknown));
+        v.push(AOp::MeasUnkLink);
+    }
+    if s.stale_link.is_some() {
+        v.push(AOp::RemLink(Who::Stale));
+    }
+    for i in 0..n {
+        for j in 0..n {
+            if i != j {
+                v.push(AOp::MeasPair(i, j));
+            }
+        }
+    }
+    v.push(AOp::Prog(0));
+    v.push(AOp::Prog(1));
+    v.push(AOp::Prog(-1));
+    v
+}
+
+struct ASnap {
+    time: u128,
+    clocks: Vec<(ClockId, Est4)>,
+    links: Vec<(LinkId, Est2)>,
+}
+
+fn a_read_clock(e: &Est, id: ClockId) -> Est4 {
+    match common::catch(|| (e.clock_offset(id), e.clock_frequency(id))) {
+        Ok((Ok(o), Ok(f))) => {
+            let (a, b) = (uv_bits(o), uv_bits(f));
+            Ok([a[0], a[1], b[0], b[1]])
+        }
+        Ok((o, f)) => Err(format!(
+            "offset:{} frequency:{}",
+            o.as_ref().err().map(err_name).unwrap_or("ok"),
+            f.as_ref().err().map(err_name).unwrap_or("ok")
+        )),
+        Err(p) => Err(format!("panic {p}")),
+    }
+}
+fn a_read_link(e: &Est, id: LinkId) -> Est2 {
+    match common::catch(|| e.link_delay(id)) {
+        Ok(Ok(d)) => Ok(uv_bits(d)),
+        Ok(Err(x)) => Err(err_name(&x).to_string()),
+        Err(p) => Err(format!("panic {p}")),
+    }
+}
+
+fn a_snap(s: &AState) -> ASnap {
+    ASnap {
+        time: ts_raw(s.est.current_time()),
+        clocks: s
+            .clocks
+            .iter()
+            .filter(|c| !c.ext)
+            .map(|c| (c.id, a_read_clock(&s.est, c.id)))
+            .collect(),
+        links: s.links.iter().map(|l| (l.id, a_read_link(&s.est, l.id))).collect(),
+    }
+}
+
+/// Raw estimator content with identifiers replaced by harness positions.
+fn raw_est_key<S: crate::storage::KalmanStorageBase>(
+    kb: &mut KB,
+    e: &EstimatorState<S>,
+    cpos: &dyn Fn(ClockId) -> u64,
+    lpos: &dyn Fn(LinkId) -> u64,
+) {
+    kb.u128(ts_raw(e.current_time()));
+    let d = pe::dims(e);
+    kb.u(d.0 as u64);
+    kb.u(d.1 as u64);
+    kb.u(d.2 as u64);
+    kb.u(d.3 as u64);
+    for (id, base, wander) in pe::clocks(e) {
+        kb.u(cpos(id));
+        kb.u(base as u64);
+        kb.f(wander);
+    }
+    kb.sep();
+    for id in pe::externals(e) {
+        kb.u(cpos(id));
+    }
+    kb.sep();
+    for (id, idx, decay) in pe::links(e) {
+        kb.u(lpos(id));
+        kb.u(idx as u64);
+        kb.f(decay);
+    }
+    kb.sep();
+    for x in pe::state_vec(e) {
+        kb.f(x);
+    }
+    kb.sep();
+    for x in pe::cov(e) {
+        kb.f(x);
+    }
+    kb.sep();
+}
+
+fn a_key(s: &AState) -> u128 {
+    let mut kb = KB::default();
+    let cpos = |id: ClockId| -> u64 {
+        s.clocks.iter().position(|c| c.id == id).map(|p| p as u64).unwrap_or(99)
+    };
+    let lpos = |id: LinkId| -> u64 {
+        s.links.iter().position(|l| l.id == id).map(|p| p as u64).unwrap_or(99)
+    };
+    raw_est_key(&mut kb, &s.est, &cpos, &lpos);
+    for c in &s.clocks {
+        kb.u(c.ext as u64);
+        kb.u(c.slot as u64);
+    }
+    kb.sep();
+    for l in &s.links {
+        kb.u(l.slot as u64);
+        kb.u(cpos(l.id.first_clock()));
+        kb.u(cpos(l.id.second_clock()));
+    }
+    kb.sep();
+    kb.u(s.stale_clock.is_some() as u64);
+    kb.u(s.stale_link.is_some() as u64);
+    kb.finish()
+}
+
+fn a_trace(s: &AState, op: Option<AOp>) -> String {
+    let mut v: Vec<String> = s.hist.iter().map(|o| o.code()).collect();
+    if let Some(o) = op {
+        v.push(o.code());
+    }
+    format!("a;{}", v.join(","))
+}
+
+#[derive(Clone, Copy, PartialEq, Eq, Debug)]
+enum Expect {
+    Any,
+    FailUnknown,
+    FailDuplicate,
+    FailBackward,
+}
+
+enum AKind {
+    Structural { skip_clock: Option<ClockId>, skip_link: Option<LinkId> },
+    Measure,
+    Progress,
+}
+
+/// Apply one op to a clone of `p`. Returns the successor (a stutter copy when the op
+/// failed) and an outcome label.
+fn a_apply(ctx: &Ctx, t: &mut Tally, p: &AState, pk: u128, before: &ASnap, op: AOp) -> (Option<AState>, String) {
+    let mut n: Option<AState> = None;
+    
+    let e = p.est.clone();
+    let cid = |pos: u8| p.clocks[pos as usize].id;
+    let who = |w: Who, stale: Option<ClockId>| match w {
+        Who::P(i) => cid(i),
+        Who::Unknown => p.unknown,
+        Who::Stale => stale.unwrap_or(p.unknown),
+    };
+    let mut expect = Expect::Any;
+    let mut kind = AKind::Measure;
+    // model update to perform on success
+    enum Upd {
+        None,
+        AddClock(AClock),
+        RemClock(ClockId),
+        AddLink(ALink),
+        RemLink(LinkId),
+    }
+    let mut upd = Upd::None;
+    let mut prog_target: Option<Timestamp<TAI>> = None;
+    let res: Result<Result<Est, AlgoError>, String> = match op {
+        AOp::AddClock | AOp::AddExt => {
+            let id = ClockId::new();
+            let slot = free_slot(p.clocks.iter().map(|c| c.slot));
+            let ext = op == AOp::AddExt;
+            kind = AKind::Structural { skip_clock: Some(id), skip_link: None };
+            upd = Upd::AddClock(AClock { id, ext, slot });
+            let (o, f, w) = a_clock_init(slot);
+            common::catch(move || if ext { e.add_external_clock(id) } else { e.add_clock(id, o, f, w) })
+        }
+        AOp::AddClockDup(pos) => {
+            let id = cid(pos);
+            expect = Expect::FailDuplicate;
+            kind = AKind::Structural { skip_clock: None, skip_link: None };
+            let (o, f, w) = a_clock_init(3);
+            common::catch(move || e.add_clock(id, o, f, w))
+        }
+        AOp::AddExtDup(pos) => {
+            let id = cid(pos);
+            expect = Expect::FailDuplicate;
+            kind = AKind::Structural { skip_clock: None, skip_link: None };
+            common::catch(move || e.add_external_clock(id))
+        }
+        AOp::RemClock(w) => {
+            let id = who(w, p.stale_clock);
+            let valid = matches!(w, Who::P(i) if !p.clocks[i as usize].ext);
+            if valid {
+                upd = Upd::RemClock(id);
+                kind = AKind::Structural { skip_clock: Some(id), skip_link: None };
+            } else {
+                expect = Expect::FailUnknown;
+                kind = AKind::Structural { skip_clock: None, skip_link: None };
+            }
+            common::catch(move || e.remove_clock(id))
+        }
+        AOp::RemExt(w) => {
+            let id = who(w, p.stale_clock);
+            let valid = matches!(w, Who::P(i) if p.clocks[i as usize].ext);
+            if valid {
+                upd = Upd::RemClock(id);
+                kind = AKind::Structural { skip_clock: Some(id), skip_link: None };
+            } else {
+                expect = Expect::FailUnknown;
+                kind = AKind::Structural { skip_clock: None, skip_link: None };
+            }
+            common::catch(move || e.remove_external_clock(id))
+        }
+        AOp::AddLink(i, j) => {
+            let id = LinkId::new(cid(i), cid(j)).unwrap();
+            let slot = free_slot(p.links.iter().map(|l| l.slot));
+            upd = Upd::AddLink(ALink { id, slot });
+            kind = AKind::Structural { skip_clock: None, skip_link: Some(id) };
+            let (d, r) = a_link_init(slot);
+            common::catch(move || e.add_link(id, d, r))
+        }
+        AOp::AddLinkDup(k) => {
+            let id = p.links[k as usize].id;
+            expect = Expect::FailDuplicate;
+            kind = AKind::Structural { skip_clock: None, skip_link: None };
+            let (d, r) = a_link_init(2);
+            common::catch(move || e.add_link(id, d, r))
+        }
+        AOp::AddLinkUnk(first) => {
+            let known = cid(0);
+            let id = if first { LinkId::new(p.unknown, known) } else { LinkId::new(known, p.unknown) }.unwrap();
+            expect = Expect::FailUnknown;
+            kind = AKind::Structural { skip_clock: None, skip_link: None };
+            let (d, r) = a_link_init(2);
+            common::catch(move || e.add_link(id, d, r))
+        }
+        AOp::RemLink(w) => {
+            let id = match w {
+                Who::P(k) => p.links[k as usize].id,
+                Who::Stale => p.stale_link.unwrap(),
+                Who::Unknown => LinkId::new(cid(0), cid(1)).unwrap(),
+            };
+            if let Who::P(_) = w {
+                upd = Upd::RemLink(id);
+                kind = AKind::Structural { skip_clock: None, skip_link: Some(id) };
+            } else {
+                expect = Expect::FailUnknown;
+                kind = AKind::Structural { skip_clock: None, skip_link: None };
+            }
+            common::catch(move || e.remove_link(id))
+        }
+        AOp::Meas(k, fwd) => {
+            let l = &p.links[k as usize];
+            let id = l.id;
+            let present = |c: ClockId| p.clocks.iter().any(|x| x.id == c);
+            if !present(id.first_clock()) || !present(id.second_clock()) {
+                expect = Expect::FailUnknown; // orphaned link: an endpoint was removed
+            }
+            let d = if fwd { id.forward() } else { id.reverse() };
+            let v = a_meas_value(l.slot, fwd);
+            common::catch(move || e.measurement(d, v, true))
+        }
+        AOp::MeasPair(i, j) => {
+            let d = LinkId::new(cid(i), cid(j)).unwrap().forward();
+            let v = a_meas_value(2 + i * 3 + j, true);
+            common::catch(move || e.measurement(d, v, false))
+        }
+        AOp::MeasUnkLink => {
+            expect = Expect::FailUnknown;
+            let d = LinkId::new(cid(0), cid(1)).unwrap().forward();
+            let v = a_meas_value(0, true);
+            common::catch(move || e.measurement(d, v, true))
+        }
+        AOp::MeasUnkClock => {
+            expect = Expect::FailUnknown;
+            let d = LinkId::new(cid(0), p.unknown).unwrap().forward();
+            let v = a_meas_value(0, true);
+            common::catch(move || e.measurement(d, v, false))
+        }
+        AOp::Prog(dt) => {
+            kind = AKind::Progress;
+            if dt < 0 {
+                expect = Expect::FailBackward;
+            }
+            let target = p.est.current_time() + Duration::from_seconds_nanos(dt as i64, 0);
+            prog_target = Some(target);
+            common::catch(move || e.progress_time(target))
+        }
+    };
+    t.inc("a_transitions");
+    let trace = || a_trace(p, Some(op));
+    let outcome;
+    match res {
+        Err(panic) => {
+            ctx.violation("C42:panic-in-estimator", format!("estimator op {} panicked: {panic}", op.code()), trace());
+            
+            outcome = "panic".to_string();
+        }
+        Ok(Err(err)) => {
+            
+            outcome = format!("a_rej:{}", err_name(&err));
+            match expect {
+                Expect::FailBackward => {
+                    t.inc("a_backward_progress_rejected");
+                    let ok = matches!(&err, AlgoError::NonMonotonicTimeProgression { from, to }
+                        if *from == p.est.current_time() && Some(*to) == prog_target);
+                    if !ok {
+                        ctx.violation(
+                            "C42:backward-progress-wrong-error",
+                            format!("progress_time to an earlier time failed with {} / wrong from-to instead of NonMonotonicTimeProgression{{from=now,to=target}}", err_name(&err)),
+                            trace(),
+                        );
+                    }
+                }
+                Expect::FailUnknown => t.inc("a_unknown_id_rejected"),
+                Expect::FailDuplicate => t.inc("a_duplicate_id_rejected"),
+                Expect::Any => t.inc("a_valid_op_rejected"),
+            }
+            if expect != Expect::Any {
+                t.distinct(common::hash_of(&(pk, op.code())));
+            }
+        }
+        Ok(Ok(est)) => {
+            let mut s2 = AState {
+                est,
+                clocks: p.clocks.clone(),
+                links: p.links.clone(),
+                unknown: p.unknown,
+                stale_clock: p.stale_clock,
+                stale_link: p.stale_link,
+                hist: {
+                    let mut h = p.hist.clone();
+                    h.push(op);
+                    h
+                },
+            };
+            outcome = format!("a_ok:{}", &op.code()[..op.code().len().min(2)]);
+            match expect {
+                Expect::FailUnknown => ctx.violation(
+                    "C42:unknown-id-accepted",
+                    format!("estimator op {} on an unknown/stale/wrong-kind identifier succeeded", op.code()),
+                    trace(),
+                ),
+                Expect::FailDuplicate => ctx.violation(
+                    "C42:duplicate-id-accepted",
+                    format!("estimator op {} with an identifier that already exists succeeded", op.code()),
+                    trace(),
+                ),
+                Expect::FailBackward => ctx.violation(
+                    "C42:backward-progress-accepted",
+                    "progress_time to an earlier time succeeded".to_string(),
+                    trace(),
+                ),
+                Expect::Any => {}
+            }
+            if expect == Expect::Any {
+                match upd {
+                    Upd::None => {}
+                    Upd::AddClock(c) => s2.clocks.push(c),
+                    Upd::RemClock(id) => {
+                        s2.clocks.retain(|c| c.id != id);
+                        s2.stale_clock = Some(id);
+                    }
+                    Upd::AddLink(l) => s2.links.push(l),
+                    Upd::RemLink(id) => {
+                        s2.links.retain(|l| l.id != id);
+                        s2.stale_link = Some(id);
+                    }
+                }
+            }
+            let after_time = ts_raw(s2.est.current_time());
+            if after_time < before.time {
+                ctx.violation(
+                    "C42:time-decreased",
+                    format!("estimator time went from raw {} to {} on {}", before.time, after_time, op.code()),
+                    trace(),
+                );
+            }
+            if let AKind::Progress = kind {
+                t.inc("a_progress_ok");
+            }
+            if let AKind::Structural { skip_clock, skip_link } = kind {
+                let mut compared = 0u64;
+                for (id, b) in &before.clocks {
+                    if Some(*id) == skip_clock {
+                        continue;
+                    }
+                    let a = a_read_clock(&s2.est, *id);
+                    compared += 1;
+                    if a != *b {
+                        let pos = p.clocks.iter().position(|c| c.id == *id).unwrap();
+                        ctx.violation(
+                            "C42:other-clock-estimate-changed",
+                            format!("{} changed the estimate of untouched clock #{pos}: {} -> {}", op.code(), fmt4(b), fmt4(&a)),
+                            trace(),
+                        );
+                    }
+                }
+                for (id, b) in &before.links {
+                    if Some(*id) == skip_link {
+                        continue;
+                    }
+                    let a = a_read_link(&s2.est, *id);
+                    compared += 1;
+                    if a != *b {
+                        let pos = p.links.iter().position(|l| l.id == *id).unwrap();
+                        ctx.violation(
+                            "C42:other-link-delay-changed",
+                            format!("{} changed the delay of untouched link #{pos}: {} -> {}", op.code(), fmt2(b), fmt2(&a)),
+                            trace(),
+                        );
+                    }
+                }
+                t.add("a_unrelated_estimates_compared", compared);
+                if compared > 0 {
+                    t.inc("a_structural_ok_with_bystanders");
+                    t.distinct(common::hash_of(&(pk, op.code())));
+                }
+            }
+            n = Some(s2);
+        }
+    }
+    (n, outcome)
+}
+
+fn a_succ(ctx: &Ctx, t: &mut Tally, p: &AState) -> Vec<(u128, AState)> {
+    let before = a_snap(p);
+    let pk = a_key(p);
+    let mut out = Vec::new();
+    for op in a_ops(p) {
+        let (n, outcome) = a_apply(ctx, t, p, pk, &before, op);
+        t.inc(&outcome);
+        // a failed op leaves the caller with its previous copy (the API consumes self): stutter
+        match n {
+            Some(n) => {
+                let k = a_key(&n);
+                if k != pk {
+                    out.push((k, n));
+                } else {
+                    t.inc("a_self_loops");
+                }
+            }
+            None => t.inc("a_self_loops"),
+        }
+    }
+    out
+}
+
+/// Seeds: histories (applied with the same oracle) whose end states start the search, so
+/// that structures needing several ops to build are explored `depth` ops further.
+const A_SEEDS: &[&str] = &["", "ac,ae,al01,ac", "ae,ac,ac,al12,m0f,p+"];
+
+fn a_run_hist(ctx: &Ctx, hist: &str) -> Option<AState> {
+    let mut s = a_new();
+    let mut t = Tally::default();
+    for code in hist.split(',').filter(|c| !c.is_empty()) {
+        let op = AOp::parse(code)?;
+        if !a_ops(&s).contains(&op) {
+            return None;
+        }
+        let before = a_snap(&s);
+        let pk = a_key(&s);
+        let (n, _) = a_apply(ctx, &mut t, &s, pk, &before, op);
+        match n {
+            Some(n) => s = n,
+            None => s.hist.push(op),
+        }
+    }
+    t.flush(ctx);
+    Some(s)
+}
+
+fn a_describe(s: &AState) -> String {
+    let snap = a_snap(s);
+    let mut v = vec![format!("time_raw={}", snap.time)];
+    for (i, c) in s.clocks.iter().enumerate() {
+        if c.ext {
+            v.push(format!("clock#{i}:external"));
+        } else {
+            let e = snap.clocks.iter().find(|x| x.0 == c.id).unwrap();
+            v.push(format!("clock#{i}:{}", fmt4(&e.1)));
+        }
+    }
+    for (i, l) in snap.links.iter().enumerate() {
+        v.push(format!("link#{i}:{}", fmt2(&l.1)));
+    }
+    v.join(" | ")
+}
+
+fn run_a(ctx: &Ctx, depth: u64) {
+    let mut init = Vec::new();
+    for h in A_SEEDS {
+        let s = a_run_hist(ctx, h).expect("seed history must be executable");
+        init.push((a_key(&s), s));
+    }
+    let sample_every = std::sync::atomic::AtomicU64::new(0);
+    let ex = explore(
+        ctx,
+        "(a) estimator",
+        init,
+        &|t: &mut Tally, s: &AState| {
+            let n = sample_every.fetch_add(1, std::sync::atomic::Ordering::Relaxed);
+            if n % 9973 == 500 {
+                ctx.sample(format!("{} => {}", a_trace(s, None), a_describe(s)));
+            }
+            a_succ(ctx, t, s)
+        },
+        depth,
+        common::budget_s() * 0.6, // leave at least 40% of the budget to part (b)
+    );
+    ctx.add("states", ex.states);
+    ctx.set("a_states", ex.states);
+    ctx.set("a_depth_completed", ex.depth_done);
+    ctx.note("a_states_per_level", &format!("{:?}", ex.per_level));
+}
+
+// =====================================================================================
+// (b) KalmanController with a mock clock (shared with C43)
+// =====================================================================================
+
+#[derive(Clone, Copy, Debug, PartialEq)]
+pub(super) enum Call {
+    SetFreq { cur: f64, f: f64 },
+    Step(Duration),
+}
+
+#[derive(Clone)]
+struct MockInner {
+    now: Timestamp<TAI>,
+    freq: f64,
+    max: f64,
+    log: Vec<Call>,
+}
+
+/// Frozen mock clock: `now()` only changes when the harness advances it (`Prog` op) or the
+/// controller steps it. Records every steering call.
+#[derive(Clone)]
+pub(super) struct MockClock(Arc<Mutex<MockInner>>);
+
+impl MockClock {
+    fn new(now: Timestamp<TAI>, max: f64) -> Self {
+        MockClock(Arc::new(Mutex::new(MockInner { now, freq: 0.0, max, log: Vec::new() })))
+    }
+    fn deep(&self) -> Self {
+        MockClock(Arc::new(Mutex::new(self.0.lock().unwrap().clone())))
+    }
+    fn advance(&self, d: Duration) {
+        let mut g = self.0.lock().unwrap();
+        g.now = g.now + d;
+    }
+    fn take_log(&self) -> Vec<Call> {
+        core::mem::take(&mut self.0.lock().unwrap().log)
+    }
+    fn peek(&self) -> (Timestamp<TAI>, f64, f64) {
+        let g = self.0.lock().unwrap();
+        (g.now, g.freq, g.max)
+    }
+}
+
+impl Clock for MockClock {
+    fn now(&self) -> Result<Timestamp<TAI>, ClockError> {
+        Ok(self.0.lock().unwrap().now)
+    }
+    fn set_frequency(&self, freq: f64) -> Result<Timestamp<TAI>, ClockError> {
+        let mut g = self.0.lock().unwrap();
+        let cur = g.freq;
+        g.log.push(Call::SetFreq { cur, f: freq });
+        g.freq = freq;
+        Ok(g.now)
+    }
+    fn get_frequency(&self) -> Result<f64, ClockError> {
+        Ok(self.0.lock().unwrap().freq)
+    }
+    fn max_frequency(&self) -> Result<f64, ClockError> {
+        Ok(self.0.lock().unwrap().max)
+    }
+    fn step_clock(&self, offset: Duration) -> Result<Timestamp<TAI>, ClockError> {
+        let mut g = self.0.lock().unwrap();
+        g.log.push(Call::Step(offset));
+        g.now = g.now + offset;
+        Ok(g.now)
+    }
+    fn error_estimate_update(&self, _e: Duration, _m: Duration) -> Result<(), ClockError> {
+        Ok(())
+    }
+    fn leap_update(&self, _l: LeapStatus) -> Result<(), ClockError> {
+        Ok(())
+    }
+    fn synchronization_update(&self, _s: bool) -> Result<(), ClockError> {
+        Ok(())
+    }
+}
+
+type St = StdKalmanStorage<MockClock>;
+type Ctrl = KalmanController<St, MockClock>;
+type Link = KalmanLink<Arc<Ctrl>, St, MockClock>;
+type Filt = LinkFilter<St>;
+
+#[derive(Clone, Copy, PartialEq, Eq, Debug)]
+enum Kind {
+    Sys,
+    Int,
+    Ext,
+}
+#[derive(Clone)]
+struct BClock {
+    id: ClockId,
+    kind: Kind,
+    slot: u8,
+}
+struct BLink {
+    h: Link,
+    id: LinkId,
+    tracked: bool,
+    slot: u8,
+}
+
+pub(super) struct BState {
+    ctrl: Arc<Ctrl>,
+    clocks: Vec<BClock>,
+    links: Vec<BLink>,
+    unknown: ClockId,
+    graveyard: Vec<ClockId>,
+    hist: Vec<BOp>,
+    dead: bool,
+    view: Option<Arc<BView>>,
+}
+
+#[derive(Clone, Copy, Debug, PartialEq, Eq)]
+pub(super) enum BOp {
+    AddClock,
+    AddExt,
+    RemClock(Who),
+    RemExt(Who),
+    Tracked(Who, Who),
+    Untracked(Who, Who),
+    Drop(u8),
+    Meas(u8, bool),
+    Warm(u8),
+    Prog(i8),
+}
+
+impl BOp {
+    pub(super) fn code(self) -> String {
+        match self {
+            BOp::AddClock => "ac".into(),
+            BOp::AddExt => "ae".into(),
+            BOp::RemClock(w) => format!("rc{}", w.code()),
+            BOp::RemExt(w) => format!("re{}", w.code()),
+            BOp::Tracked(a, b) => format!("tl{}{}", a.code(), b.code()),
+            BOp::Untracked(a, b) => format!("ul{}{}", a.code(), b.code()),
+            BOp::Drop(k) => format!("dl{k}"),
+            BOp::Meas(k, f) => format!("m{k}{}", if f { "f" } else { "r" }),
+            BOp::Warm(k) => format!("w{k}"),
+            BOp::Prog(d) => format!("p{}", if d > 0 { "+" } else if d < 0 { "-" } else { "0" }),
+        }
+    }
+    fn parse(s: &str) -> Option<BOp> {
+        let d = |c: &str| c.parse::<u8>().ok();
+        Some(match s {
+            "ac" => BOp::AddClock,
+            "ae" => BOp::AddExt,
+            "p+" => BOp::Prog(1),
+            "p0" => BOp::Prog(0),
+            "p-" => BOp::Prog(-1),
+            _ if s.starts_with("rc") => BOp::RemClock(Who::parse(&s[2..])?),
+            _ if s.starts_with("re") => BOp::RemExt(Who::parse(&s[2..])?),
+            _ if s.starts_with("tl") && s.len() == 4 => BOp::Tracked(Who::parse(&s[2..3])?, Who::parse(&s[3..4])?),
+            _ if s.starts_with("ul") && s.len() == 4 => BOp::Untracked(Who::parse(&s[2..3])?, Who::parse(&s[3..4])?),
+            _ if s.starts_with("dl") => BOp::Drop(d(&s[2..])?),
+            _ if s.starts_with('w') => BOp::Warm(d(&s[1..])?),
+            _ if s.starts_with('m') && s.len() == 3 => BOp::Meas(d(&s[1..2])?, &s[2..] == "f"),
+            _ => return None,
+        })
+    }
+}
+
+const B_MAX_CLOCKS: usize = 3;
+const B_MAX_LINKS: usize = 2;
+const B_MAX_FREQ: [f64; 3] = [100e-6, 50e-6, 200e-6];
+const B_WANDER: [f64; 3] = [1e-8, 2e-8, 3e-8];
+
+fn b_config() -> LinkFilterConfig {
+    LinkFilterConfig {
+        select_offset_uncertainty_window: 2.0,
+        select_link_uncertainty_window: 2.0,
+        select_delay_uncertainty_window: 0.7,
+        select_max_window_size: 1.0,
+        minimum_agreeing_sources: 1,
+    }
+}
+
+/// Measured (recv - send) seconds and timestamp uncertainty per link value-slot / direction.
+/// Chosen so that the three steering branches (step, frequency unclamped, frequency
+/// clamped) are all reached (counted as outcome classes).
+fn b_meas(slot: u8, fwd: bool, round: u8) -> (f64, f64) {
+    let r = round as f64;
+    match (slot, fwd) {
+        (0, true) => (0.0016 + r * 1e-5, 1e-6),
+        (0, false) => (-0.0009 - r * 0.3e-5, 1e-6),
+        (_, true) => (-0.0003 + r * 0.7e-5, 2e-6),
+        (_, false) => (0.0011 - r * 0.2e-5, 2e-6),
+    }
+}
+
+fn b_t0() -> Timestamp<TAI> {
+    Timestamp::UNIX_EPOCH + Duration::from_seconds_nanos(1000, 0)
+}
+
+fn b_new() -> BState {
+    let sysclock = MockClock::new(b_t0(), B_MAX_FREQ[0]);
+    let (ctrl, sys) = Ctrl::new(sysclock, B_WANDER[0], b_config()).expect("controller construction");
+    let mut s = BState {
+        ctrl: Arc::new(ctrl),
+        clocks: vec![BClock { id: sys, kind: Kind::Sys, slot: 0 }],
+        links: Vec::new(),
+        unknown: ClockId::new(),
+        graveyard: Vec::new(),
+        hist: Vec::new(),
+        dead: false,
+        view: None,
+    };
+    s.view = Some(Arc::new(b_view(&s)));
+    s
+}
+
+fn clone_ctrl(c: &Ctrl) -> Ctrl {
+    c.state.with_ref(|s| {
+        let mut clocks: Vec<CtlClockInfo<MockClock>> = Vec::new();
+        for ci in s.clocks.iter() {
+            clocks.push(CtlClockInfo { id: ci.id, clock: ci.clock.deep() });
+        }
+        KalmanController {
+            state: RwLock::new(KalmanControllerState {
+                clocks,
+                filter: s.filter.clone(),
+                filter_config: s.filter_config.clone(),
+                root_delay: s.root_delay,
+            }),
+        }
+    })
+}
+
+fn b_clone(p: &BState) -> BState {
+    let ctrl = Arc::new(clone_ctrl(&p.ctrl));
+    let links = p
+        .links
+        .iter()
+        .map(|l| BLink {
+            h: KalmanLink { link_id: l.id, controller: ctrl.clone(), phantomdata: PhantomData },
+            id: l.id,
+            tracked: l.tracked,
+            slot: l.slot,
+        })
+        .collect();
+    BState {
+        ctrl,
+        clocks: p.clocks.clone(),
+        links,
+        unknown: p.unknown,
+        graveyard: p.graveyard.clone(),
+        hist: p.hist.clone(),
+        dead: p.dead,
+        view: None,
+    }
+}
+
+fn b_filter(s: &BState) -> Filt {
+    s.ctrl.state.with_ref(|st| st.filter.clone())
+}
+
+/// Everything the oracles compare, plus the de-duplication key.
+pub(super) struct BView {
+    key: u128,
+    time: u128,
+    /// internal clocks known to the harness model: offset through the PUBLIC query,
+    /// frequency through the filter (the public frequency query is C43's subject)
+    clocks: Vec<(ClockId, Est4)>,
+    /// links: delay estimate when the link is part of the estimator state
+    links: Vec<(LinkId, Option<Est2>)>,
+}
+
+fn b_read_clock(s: &BState, f: &Filt, id: ClockId) -> Est4 {
+    match common::catch(|| (s.ctrl.clock_offset(id), f.clock_frequency(id))) {
+        Ok((Ok(o), Ok(fr))) => {
+            let (a, b) = (uv_bits(o), uv_bits(fr));
+            Ok([a[0], a[1], b[0], b[1]])
+        }
+        Ok((o, fr)) => Err(format!(
+            "offset:{} frequency:{}",
+            o.as_ref().err().map(err_name).unwrap_or("ok"),
+            fr.as_ref().err().map(err_name).unwrap_or("ok")
+        )),
+        Err(p) => Err(format!("panic {p}")),
+    }
+}
+
+fn b_view(s: &BState) -> BView {
+    if s.dead {
+        return BView { key: 0, time: 0, clocks: Vec::new(), links: Vec::new() };
+    }
+    let f = b_filter(s);
+    let est = pf::est(&f);
+    let cpos = |id: ClockId| -> u64 {
+        if let Some(p) = s.clocks.iter().position(|c| c.id == id) {
+            p as u64
+        } else if let Some(g) = s.graveyard.iter().position(|c| *c == id) {
+            50 + g as u64
+        } else {
+            99
+        }
+    };
+    let lpos = |id: LinkId| -> u64 {
+        s.links.iter().position(|l| l.id == id).map(|p| p as u64).unwrap_or(99)
+    };
+    let mut kb = KB::default();
+    raw_est_key(&mut kb, est, &cpos, &lpos);
+    // filter-side link records with identifiers masked
+    let est_links = pe::links(est);
+    let mut links = Vec::new();
+    let views = pf::links(&f);
+    for v in &views {
+        let mut d = v.debug.clone();
+        for l in &s.links {
+            d = d.replace(&format!("{:?}", l.id), &format!("L{}", lpos(l.id)));
+        }
+        for c in s.clocks.iter().map(|c| c.id).chain(s.graveyard.iter().copied()) {
+            d = d.replace(&format!("{:?}", c), &format!("C{}", cpos(c)));
+        }
+        kb.u(lpos(v.id));
+        kb.s(&d);
+    }
+    kb.sep();
+    for l in &s.links {
+        let in_est = est_links.iter().any(|x| x.0 == l.id);
+        let delay = if in_est {
+            Some(match common::catch(|| est.link_delay(l.id)) {
+                Ok(Ok(d)) => Ok(uv_bits(d)),
+                Ok(Err(e)) => Err(err_name(&e).to_string()),
+                Err(p) => Err(format!("panic {p}")),
+            })
+        } else {
+            None
+        };
+        links.push((l.id, delay));
+        kb.u(l.tracked as u64);
+        kb.u(l.slot as u64);
+        kb.u(cpos(l.id.first_clock()));
+        kb.u(cpos(l.id.second_clock()));
+    }
+    kb.sep();
+    // controller side: steering list, mock clocks, root delay
+    s.ctrl.state.with_ref(|st| {
+        for ci in st.clocks.iter() {
+            let (now, fr, mx) = ci.clock.peek();
+            kb.u(cpos(ci.id));
+            kb.u128(ts_raw(now));
+            kb.f(fr);
+            kb.f(mx);
+        }
+        kb.u128(dur_raw(st.root_delay) as u128);
+    });
+    kb.sep();
+    for c in &s.clocks {
+        kb.u(c.kind as u64);
+        kb.u(c.slot as u64);
+    }
+    kb.u(s.graveyard.len().min(1) as u64);
+    let clocks = s
+        .clocks
+        .iter()
+        .filter(|c| c.kind != Kind::Ext)
+        .map(|c| (c.id, b_read_clock(s, &f, c.id)))
+        .collect();
+    BView { key: kb.finish(), time: ts_raw(est.current_time()), clocks, links }
+}
+
+fn b_ops(s: &BState) -> Vec<BOp> {
+    let n = s.clocks.len() as u8;
+    let l = s.links.len() as u8;
+    let mut v = Vec::new();
+    if (n as usize) < B_MAX_CLOCKS {
+        v.push(BOp::AddClock);
+        v.push(BOp::AddExt);
+    }
+    for p in 0..n {
+        v.push(BOp::RemClock(Who::P(p)));
+        v.push(BOp::RemExt(Who::P(p)));
+    }
+    v.push(BOp::RemClock(Who::Unknown));
+    v.push(BOp::RemExt(Who::Unknown));
+    if !s.graveyard.is_empty() {
+        v.push(BOp::RemClock(Who::Stale));
+        v.push(BOp::RemExt(Who::Stale));
+    }
+    if (l as usize) < B_MAX_LINKS {
+        for i in 0..n {
+            for j in 0..n {
+                if i != j {
+                    v.push(BOp::Tracked(Who::P(i), Who::P(j)));
+                    v.push(BOp::Untracked(Who::P(i), Who::P(j)));
+                }
+            }
+        }
+        v.push(BOp::Tracked(Who::P(0), Who::P(0)));
+        v.push(BOp::Untracked(Who::P(0), Who::P(0)));
+        v.push(BOp::Tracked(Who::P(0), Who::Unknown));
+        v.push(BOp::Untracked(Who::Unknown, Who::P(0)));
+    }
+    for k in 0..l {
+        v.push(BOp::Drop(k));
+        v.push(BOp::Meas(k, true));
+        v.push(BOp::Meas(k, false));
+        if s.links[k as usize].tracked {
+            v.push(BOp::Warm(k));
+        }
+    }
+    v.push(BOp::Prog(0));
+    v.push(BOp::Prog(1));
+    v.push(BOp::Prog(-1));
+    v
+}
+
+pub(super) fn b_trace(s: &BState, op: Option<BOp>) -> String {
+    let mut v: Vec<String> = s.hist.iter().map(|o| o.code()).collect();
+    if let Some(o) = op {
+        v.push(o.code());
+    }
+    format!("b;{}", v.join(","))
+}
+
+#[derive(Clone, Copy)]
+pub(super) struct Which {
+    pub c42: bool,
+    pub c43: bool,
+}
+
+fn ulp(x: f64) -> f64 {
+    let x = x.abs();
+    if !x.is_finite() {
+        return f64::NAN;
+    }
+    f64::from_bits(x.to_bits() + 1) - x
+}
+
+/// One measurement through the public `KalmanLink::measurement`, with the C43 steering
+/// oracle (twin filter = clone of the filter taken through the crate-root view, advanced
+/// with the same progress + measurement but NOT steered = the pre-steer estimate) and the
+/// C42 failure / time oracles. Returns Ok(()) / the error name.
+fn b_measure(
+    ctx: &Ctx,
+    t: &mut Tally,
+    w: Which,
+    n: &mut BState,
+    k: usize,
+    fwd: bool,
+    round: u8,
+    before: Arc<BView>,
+    trace: &dyn Fn() -> String,
+) -> (Result<(), String>, Arc<BView>) {
+    let link_id = n.links[k].id;
+    let (val, unc) = b_meas(n.links[k].slot, fwd, round);
+    let send = b_t0();
+    let m = Measurement {
+        send_timestamp: send,
+        recv_timestamp: send + Duration::from_f64_seconds(val),
+        uncertainty: Duration::from_f64_seconds(unc),
+    };
+    let dir = if fwd { Direction::Forward } else { Direction::Reverse };
+    // pre-state
+    let pre_filter = b_filter(n);
+    let (steered, sys_now): (Vec<(ClockId, MockClock)>, Timestamp<TAI>) = n.ctrl.state.with_ref(|st| {
+        (
+            st.clocks.iter().map(|c| (c.id, c.clock.clone())).collect(),
+            st.clocks[0].clock.peek().0,
+        )
+    });
+    for (_, c) in &steered {
+        c.take_log();
+    }
+    // twin: what the controller does up to (excluding) the steering
+    let uv = UncertainValue {
+        value: (m.recv_timestamp - m.send_timestamp).as_seconds(),
+        uncertainty: m.uncertainty.as_seconds(),
+    };
+    let cfg = b_config();
+    let twin: Result<Result<Filt, AlgoError>, String> = common::catch(|| {
+        let f = pre_filter.clone().progress_time(sys_now)?;
+        f.measurement(&cfg, statime_base::DirectedLinkId::new(link_id, dir), uv)
+    });
+    // the real call
+    let real = common::catch(|| n.links[k].h.measurement(m, dir));
+    t.inc("b_transitions");
+    let real = match real {
+        Err(p) => {
+            n.dead = true;
+            let class = if w.c42 { "C42:panic-in-controller" } else { "C43:panic-in-controller" };
+            ctx.violation(class, format!("KalmanLink::measurement panicked: {p}"), trace());
+            return (Err("panic".into()), Arc::new(b_view(n)));
+        }
+        Ok(r) => r,
+    };
+    let logs: Vec<(ClockId, MockClock, Vec<Call>)> =
+        steered.into_iter().map(|(id, c)| { let l = c.take_log(); (id, c, l) }).collect();
+    let after = Arc::new(b_view(n));
+    match &real {
+        Err(e) => {
+            t.inc(&format!("b_meas_rej:{}", err_name(e)));
+            let backwards = dur_raw(sys_now - pre_filter_time(&pre_filter)) < 0;
+            if w.c42 {
+                if backwards {
+                    t.inc("b_backward_progress_rejected");
+                    t.distinct(common::hash_of(&(before.key, "back")));
+                    let ok = matches!(e, AlgoError::NonMonotonicTimeProgression { from, to }
+                        if ts_raw(*from) == before.time && *to == sys_now);
+                    if !ok {
+                        ctx.violation(
+                            "C42:backward-progress-wrong-error",
+                            format!("measurement with the system clock behind the estimator failed with {} instead of NonMonotonicTimeProgression{{from=estimator time,to=clock}}", err_name(e)),
+                            trace(),
+                        );
+                    }
+                    if after.key != before.key {
+                        ctx.violation(
+                            "C42:failed-progress-altered-state",
+                            "a rejected backward progression changed the controller/filter state".to_string(),
+                            trace(),
+                        );
+                    }
+                } else {
+                    // a failing measurement may keep the (legitimate) time progression that
+                    // precedes it, nothing else
+                    let expect_key = {
+                        let mut x = b_clone(n);
+                        // b_clone copied the post-state; rebuild the expected one from the pre filter
+                        let prog = common::catch(|| pre_filter.clone().progress_time(sys_now));
+                        if let Ok(Ok(pf2)) = prog {
+                            x.ctrl.state.with_mut(|st| st.filter = pf2);
+                            Some(b_view(&x).key)
+                        } else {
+                            None
+                        }
+                    };
+                    if let Some(k2) = expect_key {
+                        t.inc("b_failed_measurement_compared");
+                        if k2 != after.key {
+                            ctx.violation(
+                                "C42:failed-op-altered-state",
+                                format!("measurement failed with {} but left a state different from 'time progressed only'", err_name(e)),
+                                trace(),
+                            );
+                        }
+                    }
+                }
+            }
+            if w.c43 {
+                if logs.iter().any(|(_, _, l)| !l.is_empty()) {
+                    ctx.violation(
+                        "C43:steered-without-estimate-update",
+                        format!("measurement failed with {} after the controller had already steered a clock", err_name(e)),
+                        trace(),
+                    );
+                }
+            }
+            return (Err(err_name(e).to_string()), after);
+        }
+        Ok(()) => {}
+    }
+    t.inc("b_meas_ok");
+    if w.c42 && dur_raw(sys_now - pre_filter_time(&pre_filter)) < 0 {
+        ctx.violation(
+            "C42:backward-progress-accepted",
+            "measurement succeeded although the system clock was behind the estimator time (a progression to an earlier time must fail)".to_string(),
+            trace(),
+        );
+    }
+    // ---- C42: time never decreases except by the absorbed system-clock step
+    let sys_step: i128 = logs[0].2.iter().map(|c| if let Call::Step(d) = c { dur_raw(*d) } else { 0 }).sum();
+    if w.c42 {
+        let adj = after.time as i128 - sys_step;
+        if adj < before.time as i128 {
+            ctx.violation(
+                "C42:time-decreased",
+                format!("estimator time raw {} -> {} (system-clock step {} excluded)", before.time, after.time, sys_step),
+                trace(),
+            );
+        }
+        if sys_step != 0 {
+            t.inc("b_system_clock_step_time_shift_excluded");
+        }
+    }
+    // ---- C43: steering oracle
+    if w.c43 {
+        let twin = match twin {
+            Ok(Ok(f)) => f,
+            other => {
+                ctx.violation(
+                    "C43:twin-divergence",
+                    format!("harness twin of progress+measurement failed ({}) while the real call succeeded", match other { Ok(Err(e)) => err_name(&e).to_string(), Err(p) => p, _ => String::new() }),
+                    trace(),
+                );
+                return (Ok(()), after);
+            }
+        };
+        let post = b_filter(n);
+        for (idx, (id, clock, log)) in logs.iter().enumerate() {
+            let (_, _, max) = clock.peek();
+            let pre_o = twin.clock_offset(*id).map(|v| v.value);
+            let pre_f = twin.clock_frequency(*id).map(|v| v.value);
+            let post_o = post.clock_offset(*id).map(|v| v.value);
+            let post_f = post.clock_frequency(*id).map(|v| v.value);
+            let (Ok(pre_o), Ok(pre_f), Ok(post_o), Ok(post_f)) = (pre_o, pre_f, post_o, post_f) else {
+                ctx.violation("C43:steered-clock-unknown-to-filter", format!("steered clock #{idx} has no estimate"), trace());
+                continue;
+            };
+            let mut step = 0.0f64;
+            let mut dfreq = 0.0f64;
+            let mut nstep = 0;
+            let mut nfreq = 0;
+            for c in log {
+                match c {
+                    Call::Step(d) => {
+                        step += d.as_seconds();
+                        nstep += 1;
+                        if dur_raw(*d) == 0 { t.inc("b_steer:step_zero") } else { t.inc("b_steer:step_nonzero") }
+                    }
+                    Call::SetFreq { cur, f } => {
+                        dfreq += f - cur;
+                        nfreq += 1;
+                        t.inc("c43_set_frequency_calls");
+                        if !(f.abs() <= max) {
+                            ctx.violation(
+                                "C43:frequency-exceeds-max",
+                                format!("set_frequency({f:e}) on clock #{idx} whose max_frequency is {max:e}"),
+                                trace(),
+                            );
+                        }
+                        if f.abs() == max { t.inc("b_steer:freq_clamped") } else { t.inc("b_steer:freq_unclamped") }
+                    }
+                }
+            }
+            if nstep + nfreq == 0 {
+                t.inc("b_steer:none");
+            }
+            // estimate change == applied change; 2^-64 s = resolution of the Duration the
+            // step is handed to the clock in
+            let q = if nstep > 0 { 1.0 / 18446744073709551616.0 } else { 0.0 };
+            let tol_o = 4.0 * ulp(pre_o.abs().max(post_o.abs()).max(step.abs())) + q;
+            let tol_f = 4.0 * ulp(pre_f.abs().max(post_f.abs()).max(dfreq.abs()));
+            t.inc("c43_steer_checks");
+            if nstep + nfreq > 0 && (step != 0.0 || dfreq != 0.0) {
+                t.distinct(common::hash_of(&(before.key, idx as u64, "steer")));
+            }
+            if !(((post_o - pre_o) - step).abs() <= tol_o) {
+                ctx.violation(
+                    "C43:offset-estimate-vs-step",
+                    format!("clock #{idx}: stepped by {step:e} s but own offset estimate went {pre_o:e} -> {post_o:e} (change {:e})", post_o - pre_o),
+                    trace(),
+                );
+            }
+            if !(((post_f - pre_f) - dfreq).abs() <= tol_f) {
+                ctx.violation(
+                    "C43:frequency-estimate-vs-steer",
+                    format!("clock #{idx}: frequency changed by {dfreq:e} but own frequency estimate went {pre_f:e} -> {post_f:e} (change {:e})", post_f - pre_f),
+                    trace(),
+                );
+            }
+        }
+    }
+    (Ok(()), after)
+}
+
+fn pre_filter_time(f: &Filt) -> Timestamp<TAI> {
+    pf::est(f).current_time()
+}
+
+/// C43 query oracle on one state: the public `clock_frequency` must report the filter's
+/// frequency estimate, and that estimate must be the rate at which the offset estimate
+/// moves when only time passes (independent meaning of "frequency").
+fn c43_queries(ctx: &Ctx, t: &mut Tally, n: &BState, trace: &dyn Fn() -> String) {
+    let f = b_filter(n);
+    for (idx, c) in n.clocks.iter().enumerate() {
+        if c.kind == Kind::Ext {
+            continue;
+        }
+        let (Ok(q), Ok(reff), Ok(refo)) = (n.ctrl.clock_frequency(c.id), f.clock_frequency(c.id), f.clock_offset(c.id)) else {
+            ctx.violation("C43:frequency-query-failed", format!("clock #{idx}: frequency/offset query failed for a known clock"), trace());
+            continue;
+        };
+        t.inc("c43_frequency_queries");
+        let (qb, fb, ob) = (uv_bits(q), uv_bits(reff), uv_bits(refo));
+        if fb != ob {
+            t.inc("c43_frequency_queries_where_offset_differs");
+            t.distinct(common::hash_of(&(fb, ob, idx as u64)));
+        }
+        if fb[0] != ob[0] {
+            t.inc("c43_frequency_queries_where_offset_value_differs");
+        }
+        if qb != fb {
+            let class = if qb == ob { "C43:frequency-query-returns-offset" } else { "C43:frequency-query-wrong" };
+            ctx.violation(
+                class,
+                format!(
+                    "clock #{idx}: clock_frequency() = {:e}±{:e}, filter frequency estimate = {:e}±{:e}, offset estimate = {:e}±{:e}",
+                    q.value, q.uncertainty, reff.value, reff.uncertainty, refo.value, refo.uncertainty
+                ),
+                trace(),
+            );
+        }
+        // semantic cross-check of the reference itself
+        let t1 = pre_filter_time(&f) + Duration::from_seconds_nanos(1, 0);
+        if let Ok(Ok(g)) = common::catch(|| f.clone().progress_time(t1)) {
+            if let Ok(o1) = g.clock_offset(c.id) {
+                let d = o1.value - refo.value;
+                let tol = 4.0 * ulp(o1.value.abs().max(refo.value.abs()).max(reff.value.abs()));
+                t.inc("c43_frequency_is_offset_rate_checks");
+                if !((d - reff.value).abs() <= tol) {
+                    ctx.violation(
+                        "C43:frequency-estimate-not-offset-rate",
+                        format!("clock #{idx}: offset estimate moves by {d:e} in 1 s but the filter's frequency estimate is {:e}", reff.value),
+                        trace(),
+                    );
+                }
+            }
+        }
+    }
+}
+
+pub(super) fn b_apply(ctx: &Ctx, t: &mut Tally, w: Which, p: &BState, op: BOp) -> BState {
+    let mut n = b_clone(p);
+    n.hist.push(op);
+    let before: Arc<BView> = p.view.clone().expect("parent view");
+    let trace = || b_trace(p, Some(op));
+    let who = |x: Who| -> ClockId {
+        match x {
+            Who::P(i) => p.clocks[i as usize].id,
+            Who::Unknown => p.unknown,
+            Who::Stale => *p.graveyard.last().unwrap_or(&p.unknown),
+        }
+    };
+    let in_use = |id: ClockId| p.links.iter().any(|l| l.id.contains_clock(id));
+    let mut expect = Expect::Any;
+    let mut skip_clock: Option<ClockId> = None;
+    let mut skip_link: Option<LinkId> = None;
+    let mut structural = true;
+    let mut meas_view: Option<Arc<BView>> = None;
+    // result: Ok(true)=succeeded, Ok(false)+name = rejected
+    let mut outcome: Result<Result<(), AlgoError>, String> = Ok(Ok(()));
+    match op {
+        BOp::AddClock => {
+            let slot = free_slot(p.clocks.iter().map(|c| c.slot));
+            let now = p.ctrl.state.with_ref(|st| st.clocks[0].clock.peek().0);
+            let mock = MockClock::new(now, B_MAX_FREQ[slot as usize]);
+            match common::catch(|| n.ctrl.add_clock(mock, B_WANDER[slot as usize])) {
+                Ok(Ok(id)) => {
+                    n.clocks.push(BClock { id, kind: Kind::Int, slot });
+                    skip_clock = Some(id);
+                }
+                Ok(Err(e)) => outcome = Ok(Err(e)),
+                Err(pn) => outcome = Err(pn),
+            }
+        }
+        BOp::AddExt => {
+            let slot = free_slot(p.clocks.iter().map(|c| c.slot));
+            match common::catch(|| n.ctrl.add_external_clock()) {
+                Ok(Ok(id)) => {
+                    n.clocks.push(BClock { id, kind: Kind::Ext, slot });
+                    skip_clock = Some(id);
+                }
+                Ok(Err(e)) => outcome = Ok(Err(e)),
+                Err(pn) => outcome = Err(pn),
+            }
+        }
+        BOp::RemClock(x) => {
+            let id = who(x);
+            let kind = if let Who::P(i) = x { Some(p.clocks[i as usize].kind) } else { None };
+            match kind {
+                Some(Kind::Int) => skip_clock = Some(id),
+                Some(Kind::Sys) => {}
+                _ => expect = Expect::FailUnknown,
+            }
+            match common::catch(|| n.ctrl.remove_clock(id)) {
+                Ok(Ok(())) => {
+                    if expect == Expect::Any {
+                        n.clocks.retain(|c| c.id != id);
+                        n.graveyard.push(id);
+                    }
+                    if kind == Some(Kind::Sys) {
+                        t.inc("b_system_clock_removed");
+                    }
+                    if in_use(id) {
+                        t.inc("b_in_use_clock_removed");
+                    }
+                }
+                Ok(Err(e)) => outcome = Ok(Err(e)),
+                Err(pn) => outcome = Err(pn),
+            }
+        }
+        BOp::RemExt(x) => {
+            let id = who(x);
+            let kind = if let Who::P(i) = x { Some(p.clocks[i as usize].kind) } else { None };
+            if kind == Some(Kind::Ext) {
+                skip_clock = Some(id);
+            } else {
+                expect = Expect::FailUnknown;
+            }
+            match common::catch(|| n.ctrl.remove_external_clock(id)) {
+                Ok(Ok(())) => {
+                    if expect == Expect::Any {
+                        n.clocks.retain(|c| c.id != id);
+                        n.graveyard.push(id);
+                        if in_use(id) {
+                            t.inc("b_in_use_external_removed");
+                        }
+                    }
+                }
+                Ok(Err(e)) => outcome = Ok(Err(e)),
+                Err(pn) => outcome = Err(pn),
+            }
+        }
+        BOp::Tracked(a, b) | BOp::Untracked(a, b) => {
+            let (ia, ib) = (who(a), who(b));
+            if a == Who::Unknown || b == Who::Unknown {
+                expect = Expect::FailUnknown;
+            }
+            let tracked = matches!(op, BOp::Tracked(..));
+            let slot = free_slot(p.links.iter().map(|l| l.slot));
+            let arc = n.ctrl.clone();
+            let r = common::catch(move || {
+                if tracked {
+                    Ctrl::create_tracked_link(arc, ia, ib, 0.01 * (slot as f64 + 1.0))
+                } else {
+                    Ctrl::create_untracked_link(arc, ia, ib)
+                }
+            });
+            match r {
+                Ok(Ok(h)) => {
+                    let id = h.link_id;
+                    skip_link = Some(id);
+                    let ext = [a, b].iter().any(|x| matches!(x, Who::P(i) if p.clocks[*i as usize].kind == Kind::Ext));
+                    if ext {
+                        let rd = Duration::from_f64_seconds(0.01 * (slot as f64 + 1.0));
+                        if let Ok(Err(e)) | Ok(Err(e)) = common::catch(|| h.external_data_update(rd, None, true)).map(|r| r) {
+                            t.inc(&format!("b_external_data_update_rej:{}", err_name(&e)));
+                        }
+                    }
+                    if expect == Expect::Any {
+                        n.links.push(BLink { h, id, tracked, slot });
+                    }
+                }
+                Ok(Err(e)) => outcome = Ok(Err(e)),
+                Err(pn) => outcome = Err(pn),
+            }
+        }
+        BOp::Drop(k) => {
+            let l = n.links.remove(k as usize);
+            skip_link = Some(l.id);
+            if let Err(pn) = common::catch(move || drop(l.h)) {
+                outcome = Err(pn);
+            }
+        }
+        BOp::Meas(k, fwd) => {
+            structural = false;
+            let (r, v) = b_measure(ctx, t, w, &mut n, k as usize, fwd, 0, before.clone(), &trace);
+            meas_view = Some(v);
+            t.inc(&format!("b_out:meas:{}", r.err().unwrap_or_else(|| "ok".into())));
+        }
+        BOp::Warm(k) => {
+            structural = false;
+            for r in 0..4u8 {
+                for fwd in [true, false] {
+                    if n.dead {
+                        break;
+                    }
+                    let bv = meas_view.clone().unwrap_or_else(|| before.clone());
+                    let (_, v) = b_measure(ctx, t, w, &mut n, k as usize, fwd, r, bv, &trace);
+                    meas_view = Some(v);
+                }
+            }
+            t.inc("b_out:warm");
+        }
+        BOp::Prog(dt) => {
+            structural = false;
+            let d = Duration::from_seconds_nanos(dt as i64, 0);
+            n.ctrl.state.with_ref(|st| {
+                for c in st.clocks.iter() {
+                    c.clock.advance(d);
+                }
+            });
+            t.inc("b_mock_time_moves");
+        }
+    }
+    if structural {
+        t.inc("b_transitions");
+    }
+    if let Err(pn) = &outcome {
+        n.dead = true;
+        let class = if w.c42 { "C42:panic-in-controller" } else { "C43:panic-in-controller" };
+        ctx.violation(class, format!("controller op {} panicked: {pn}", op.code()), trace());
+        n.view = Some(Arc::new(b_view(&n)));
+        return n;
+    }
+    if n.dead {
+        n.view = Some(Arc::new(b_view(&n)));
+        return n;
+    }
+    let after: Arc<BView> = match meas_view {
+        Some(v) => v,
+        None => Arc::new(b_view(&n)),
+    };
+    if structural {
+        let rejected = matches!(outcome, Ok(Err(_)));
+        if let Ok(Err(e)) = &outcome {
+            t.inc(&format!("b_out:{}:rej:{}", &op.code()[..2], err_name(e)));
+        } else {
+            t.inc(&format!("b_out:{}:ok", &op.code()[..2]));
+        }
+        if w.c42 {
+            if expect == Expect::FailUnknown {
+                if rejected {
+                    t.inc("b_unknown_id_rejected");
+                    t.distinct(common::hash_of(&(before.key, op.code())));
+                    if after.key != before.key {
+                        ctx.violation(
+                            "C42:failed-op-altered-state",
+                            format!("{} on an unknown/stale/wrong-kind identifier failed but changed the controller state", op.code()),
+                            trace(),
+                        );
+                    }
+                } else {
+                    ctx.violation(
+                        "C42:unknown-id-accepted",
+                        format!("controller op {} on an unknown/stale/wrong-kind identifier succeeded", op.code()),
+                        trace(),
+                    );
+                }
+            }
+            if after.time < before.time {
+                ctx.violation(
+                    "C42:time-decreased",
+                    format!("estimator time raw {} -> {} on {}", before.time, after.time, op.code()),
+                    trace(),
+                );
+            }
+            let mut compared = 0u64;
+            for (id, b) in &before.clocks {
+                if Some(*id) == skip_clock {
+                    continue;
+                }
+                compared += 1;
+                let a = after.clocks.iter().find(|x| x.0 == *id).map(|x| x.1.clone()).unwrap_or(Err("gone".into()));
+                if a != *b {
+                    let pos = p.clocks.iter().position(|c| c.id == *id).unwrap();
+                    ctx.violation(
+                        "C42:other-clock-estimate-changed",
+                        format!("{} changed the estimate of untouched clock #{pos}: {} -> {}", op.code(), fmt4(b), fmt4(&a)),
+                        trace(),
+                    );
+                }
+            }
+            for (id, b) in &before.links {
+                if Some(*id) == skip_link {
+                    continue;
+                }
+                compared += 1;
+                let a = after.links.iter().find(|x| x.0 == *id).map(|x| x.1.clone()).unwrap_or(Some(Err("gone".into())));
+                if a != *b {
+                    let pos = p.links.iter().position(|l| l.id == *id).unwrap();
+                    let sh = |x: &Option<Est2>| x.as_ref().map(fmt2).unwrap_or_else(|| "not in estimator".into());
+                    ctx.violation(
+                        "C42:other-link-delay-changed",
+                        format!("{} changed the delay of untouched link #{pos}: {} -> {}", op.code(), sh(b), sh(&a)),
+                        trace(),
+                    );
+                }
+                if b.is_some() {
+                    t.inc("b_bystander_link_delays_compared");
+                }
+            }
+            t.add("b_unrelated_estimates_compared", compared);
+            if compared > 1 && !rejected {
+                t.inc("b_structural_ok_with_bystanders");
+                t.distinct(common::hash_of(&(before.key, op.code())));
+            }
+        }
+    }
+    if w.c43 {
+        c43_queries(ctx, t, &n, &trace);
+    }
+    n.view = Some(after);
+    n
+}
+
+fn b_succ(ctx: &Ctx, t: &mut Tally, w: Which, p: &BState) -> Vec<(u128, BState)> {
+    let pk = p.view.as_ref().unwrap().key;
+    let mut out = Vec::new();
+    for op in b_ops(p) {
+        let n = b_apply(ctx, t, w, p, op);
+        if n.dead {
+            t.inc("b_dead_states");
+            continue;
+        }
+        let k = n.view.as_ref().unwrap().key;
+        if k != pk {
+            out.push((k, n));
+        } else {
+            t.inc("b_self_loops");
+        }
+    }
+    out
+}
+
+const B_SEEDS: &[&str] = &["", "ae,tl10,w0", "ac,tl01,w0"];
+
+pub(super) fn b_run_hist(ctx: &Ctx, w: Which, hist: &str) -> Option<BState> {
+    let mut s = b_new();
+    let mut t = Tally::default();
+    if w.c43 && hist.is_empty() {
+        c43_queries(ctx, &mut t, &s, &|| "b;".to_string());
+    }
+    for code in hist.split(',').filter(|c| !c.is_empty()) {
+        let op = BOp::parse(code)?;
+        if s.dead || !b_ops(&s).contains(&op) {
+            return None;
+        }
+        s = b_apply(ctx, &mut t, w, &s, op);
+    }
+    t.flush(ctx);
+    Some(s)
+}
+
+pub(super) fn b_describe(s: &BState) -> String {
+    if s.dead {
+        return "dead (panic poisoned the controller)".into();
+    }
+    let v = s.view.as_ref().unwrap();
+    let mut out = vec![format!("time_raw={}", v.time)];
+    for (i, c) in s.clocks.iter().enumerate() {
+        match c.kind {
+            Kind::Ext => out.push(format!("clock#{i}:external")),
+            _ => {
+                let e = v.clocks.iter().find(|x| x.0 == c.id).unwrap();
+                let q = s.ctrl.clock_frequency(c.id).map(|q| format!("{:e}±{:e}", q.value, q.uncertainty)).unwrap_or_else(|e| err_name(&e).into());
+                out.push(format!("clock#{i}:{} public_clock_frequency={q}", fmt4(&e.1)));
+            }
+        }
+    }
+    for (i, l) in v.links.iter().enumerate() {
+        out.push(format!("link#{i}:{}", l.1.as_ref().map(fmt2).unwrap_or_else(|| "not in estimator".into())));
+    }
+    s.ctrl.state.with_ref(|st| {
+        for (i, c) in st.clocks.iter().enumerate() {
+            let (now, f, m) = c.clock.peek();
+            out.push(format!("mock#{i}:now_raw={} freq={f:e} max={m:e}", ts_raw(now)));
+        }
+    });
+    out.join(" | ")
+}
+
+pub(super) fn run_b(ctx: &Ctx, w: Which, depth: u64) {
+    let mut init = Vec::new();
+    for h in B_SEEDS {
+        let s = b_run_hist(ctx, w, h).expect("seed history must be executable");
+        init.push((s.view.as_ref().unwrap().key, s));
+    }
+    let counter = std::sync::atomic::AtomicU64::new(0);
+    let ex = explore(
+        ctx,
+        "(b) controller",
+        init,
+        &|t: &mut Tally, s: &BState| {
+            let n = counter.fetch_add(1, std::sync::atomic::Ordering::Relaxed);
+            if n % 4999 == 700 {
+                ctx.sample(format!("{} => {}", b_trace(s, None), b_describe(s)));
+            }
+            b_succ(ctx, t, w, s)
+        },
+        depth,
+        common::budget_s(),
+    );
+    ctx.add("states", ex.states);
+    ctx.set("b_states", ex.states);
+    ctx.set("b_depth_completed", ex.depth_done);
+    ctx.note("b_states_per_level", &format!("{:?}", ex.per_level));
+}
+
+// =====================================================================================
+// replay + check
+// =====================================================================================
+
+fn replay(ctx: &Ctx, trace: &str) -> String {
+    let (which, hist) = trace.split_once(';').unwrap_or(("?", ""));
+    match which {
+        "a" => match a_run_hist(ctx, hist) {
+            Some(s) => a_describe(&s),
+            None => "unparseable or inapplicable trace".into(),
+        },
+        "b" => match b_run_hist(ctx, Which { c42: true, c43: false }, hist) {
+            Some(s) => b_describe(&s),
+            None => "unparseable or inapplicable trace".into(),
+        },
+        _ => "unknown trace kind".into(),
+    }
+}
+
+#[test]
+fn check() {
+    let ctx = Ctx::new("C42");
+    if let Some(t) = common::replay_trace() {
+        let a = replay(&ctx, &t);
+        let b = replay(&ctx, &t);
+        common::report_replay("C42", &a, &b, ctx.violation_count() > 0);
+        return;
+    }
+    let (da, db) = if ctx.quick() { (5, 6) } else { (6, 8) };
+    ctx.rule(&format!(
+        "BFS over op sequences applied to clones of the real objects, de-duplicated on exact f64 bits + structure \
+         (ids masked by creation position). (a) EstimatorState: ops {{add clock, add external, re-add existing id (as clock / as external), \
+         remove clock / external (present, wrong kind, unknown, stale), add link (every ordered pair), add link with existing id, \
+         add link with unknown endpoint, remove link (present, unknown, stale), measurement over a link (both directions, also over an orphaned link), \
+         link-less measurement (every ordered pair), measurement with unknown link / unknown clock, progress dt in {{0,+1s,-1s}}}}, <=3 clocks, <=2 links, \
+         depth {da} after each of {} seed histories. (b) KalmanController + KalmanLink + mock clock: ops {{add clock, add external, remove clock/external \
+         (each present id incl. system clock, in-use, wrong kind, unknown, stale), create tracked/untracked link (every ordered pair, self, unknown endpoint, both external), \
+         drop link, measurement (both directions), warm (4 round trips = 8 measurements), clock time moves dt in {{0,+1s,-1s}}}}, <=3 clocks, <=2 links, depth {db} after each of {} seeds. \
+         Non-trivial & distinct = (state, op) where a structural op succeeded with at least one bystander estimate compared, or an unknown/duplicate/backward op was rejected.",
+        A_SEEDS.len(),
+        B_SEEDS.len()
+    ));
+    ctx.assume("initial values / measurement values are one fixed pairwise-distinct alphabet (not all of R)");
+    ctx.assume("128-bit hash of the canonical state key stands for the key (collision probability negligible)");
+    ctx.assume("(a) the estimator API consumes self, so 'fails without altering' reduces to 'fails' there; the unaltered-state check is done on the controller (b), whose whole probe-visible state + mock clocks form the key");
+    ctx.assume("a failing measurement may keep the time progression that precedes it (KalmanLink::measurement commits the progression first); anything beyond that is reported");
+    ctx.assume("removing an in-use clock, the system clock, self links and both-external links are outside 'unknown or duplicate identifiers': only the bystander oracle applies to them");
+    run_a(&ctx, da);
+    run_b(&ctx, Which { c42: true, c43: false }, db);
+    let tr = ctx.get("a_transitions") + ctx.get("b_transitions");
+    ctx.set("transitions", tr);
+    ctx.set("evaluations", ctx.get("a_unrelated_estimates_compared") + ctx.get("b_unrelated_estimates_compared") + tr);
+    ctx.exhaustive(ctx.get("a_depth_completed") == da && ctx.get("b_depth_completed") == db);
+    ctx.finish();
+}
